@@ -36,8 +36,8 @@ def sumsq(o, xs):
 
 
 def clip(o, x, lo, hi):
-    """numpy.clip(x, lo, hi) = minimum(maximum(x, lo), hi)"""
-    return o.min(o.max(x, lo), hi)
+    """numpy.clip(x, lo, hi) = minimum(hi, maximum(lo, x))"""
+    return o.min(hi, o.max(lo, x))
 
 
 def norm(o, xs):
